@@ -41,11 +41,6 @@ const map<string, double> PREFIX_FACTORS = {{"y", 1.0e-24}, {"z", 1.0e-21}, {"a"
     {"k", 1.0e3}, {"M",1.0e6}, {"G", 1.0e9}, {"T", 1.0e12}, {"P", 1.0e15}, {"E",1.0e18}, {"Z", 1.0e21}, {"Y", 1.0e24}};
 
 
-#ifdef NIX_VERIF
-// verification hook (off by default): the simulator supplies the seed words
-extern "C" unsigned nix_verif_entropy(void);
-#endif
-
 static boost::mt19937 seededGenerator() {
     // Seed from the system's entropy source and not from the wall clock:
     // processes started within the same second must not create the same ids.
@@ -53,9 +48,6 @@ static boost::mt19937 seededGenerator() {
     std::vector<uint32_t> words(8);
     for (auto &w : words) {
         w = rd();
-#ifdef NIX_VERIF
-        w = nix_verif_entropy();
-#endif
     }
     std::seed_seq seq(words.begin(), words.end());
     boost::mt19937 gen;
